@@ -26,7 +26,7 @@ import (
 func c05Gen(t *rapid.T, r *h.Rec) execCase {
 	av, onEx, onCl := avoidOpts(r)
 	return execCase{
-		Spec:   synth.GenSQL(t, &synth.SQLOpts{Avoid: av, OnExclude: onEx, OnClass: onCl, MaxTables: 4, Executable: true}),
+		Spec:   synth.GenSQL(t, &synth.SQLOpts{Avoid: av, OnExclude: onEx, OnClass: onCl, MaxTables: 4, Executable: true, PlainQueries: true}),
 		Seed:   int64(rapid.IntRange(1, 1<<30).Draw(t, "childSeed")),
 		Checks: childChecks(12, 60),
 	}
@@ -70,6 +70,11 @@ func keyTypeOf(spec *synth.Spec, f *synth.Field) string {
 	}
 	return harnessType(t)
 }
+
+var (
+	rePlainUpdate = regexp.MustCompile(`^gomacro:QUERY (\w+) UPDATE (\w+) SET (\w+) = \$newValue\$ WHERE (\w+) = \$selectV\$ ;$`)
+	rePlainDelete = regexp.MustCompile(`^gomacro:QUERY (\w+) DELETE FROM (\w+) WHERE (\w+) = \$key\$;$`)
+)
 
 // renderCrudHarness renders the table bindings of the child harness.
 func renderCrudHarness(spec *synth.Spec, model *sqlModel, ddl string, sets bool) string {
@@ -185,6 +190,28 @@ func renderCrudHarness(spec *synth.Spec, model *sqlModel, ddl string, sets bool)
 				fmt.Fprintf(&sb, "\t\t\t\tDeleteBy: func(db DB, args []any) ([]any, error) { m, err := Delete%ssBy%s(db, %s); if err != nil { return nil, err }; return %s, nil },\n", T, title, strings.Join(args, ", "), rowsConv("m", tb.Primary != nil))
 			}
 			sb.WriteString("\t\t\t},\n")
+		}
+		sb.WriteString("\t\t},\n")
+		// custom queries over plain columns: QUERY <fn> UPDATE <T> SET <c> = $newValue$ WHERE <d> = $selectV$ ; | DELETE FROM <T> WHERE <d> = $key$;
+		sb.WriteString("\t\tQueries: []vcQuery{\n")
+		for _, line := range tb.Decl.Doc {
+			inUnique := func(col string) bool {
+				for _, k := range keys {
+					for _, c := range k.cols {
+						if k.unique && c == col {
+							return true
+						}
+					}
+				}
+				return false
+			}
+			if m := rePlainUpdate.FindStringSubmatch(line); m != nil && colByName[m[3]] != nil && colByName[m[4]] != nil && !inUnique(m[3]) {
+				fmt.Fprintf(&sb, "\t\t\t{Name: %q, Set: %q, Where: %q, Exec: func(db DB, set, where any) error { return %s(db, set.(%s), where.(%s)) }},\n",
+					m[1], m[3], m[4], m[1], harnessType(colByName[m[3]].GoType), harnessType(colByName[m[4]].GoType))
+			} else if m := rePlainDelete.FindStringSubmatch(line); m != nil && colByName[m[3]] != nil {
+				fmt.Fprintf(&sb, "\t\t\t{Name: %q, Where: %q, Exec: func(db DB, _, where any) error { return %s(db, where.(%s)) }},\n",
+					m[1], m[3], m[1], harnessType(colByName[m[3]].GoType))
+			}
 		}
 		sb.WriteString("\t\t},\n")
 		// entry points
@@ -325,7 +352,7 @@ func c05Check(c execCase, r *h.Rec) error {
 func TestC05(t *testing.T) {
 	h.Main(t, h.Prop[execCase]{
 		ID: "C05",
-		Rule: "rapid model files (primary tables with an id of int64 / local ID type, link tables, foreign keys by ID type / tag / sql.NullInt64 / local wrapper with ON DELETE actions, columns of every SQL kind incl. named arrays, composites, jsonb, dates, guards; UNIQUE / PRIMARY KEY / _SELECT KEY comments) are compiled with the real sqlcrud (generate-sets on/off) and gounions outputs and executed against the mini engine loaded with the generated create script (jsonb CHECKs evaluated by the validator interpreter); a rapid state machine (in the child) draws insert / select / selectAll / selectMany / update / delete / deleteMany / link delete / InsertMany (COPY) / by-foreign-key / by-unique / by-select-key calls and the pure Go helpers (IDs(), <F>s(), By<F>(), <ID>ArrayToPQ, New<ID>SetFrom / Add / Has / Keys against a map of the distinct ids) with valid random rows and compares every result, error class and a final full scan with a map model (unique conflicts, ON DELETE CASCADE / SET NULL / refusal mirrored); the engine checks tables, columns, $1..$n placeholders vs arguments and column order on every statement; " +
+		Rule: "rapid model files (primary tables with an id of int64 / local ID type, link tables, foreign keys by ID type / tag / sql.NullInt64 / local wrapper with ON DELETE actions, columns of every SQL kind incl. named arrays, composites, jsonb, dates, guards; UNIQUE / PRIMARY KEY / _SELECT KEY comments) are compiled with the real sqlcrud (generate-sets on/off) and gounions outputs and executed against the mini engine loaded with the generated create script (jsonb CHECKs evaluated by the validator interpreter); a rapid state machine (in the child) draws insert / select / selectAll / selectMany / update / delete / deleteMany / link delete / InsertMany (COPY) / by-foreign-key / by-unique / by-select-key calls and the pure Go helpers (IDs(), <F>s(), By<F>(), <ID>ArrayToPQ, New<ID>SetFrom / Add / Has / Keys against a map of the distinct ids) and the custom query functions of QUERY comments (UPDATE .. SET c = $newValue$ WHERE d = $selectV$, DELETE .. WHERE d = $key$ over scalar and enum columns; effect on the table compared with the model right after the call) with valid random rows and compares every result, error class and a final full scan with a map model (unique conflicts, ON DELETE CASCADE / SET NULL / refusal mirrored); the engine checks tables, columns, $1..$n placeholders vs arguments and column order on every statement; " +
 			"non-trivial = a history with an insert, a non-empty read and an update/delete; distinct by (schema hash, history hash)",
 		Assumes: []string{
 			"the database is engine/minipg (+ engine/pq standing in for lib/pq): 'a database that implements exactly the tables the generator emits'",
